@@ -441,9 +441,13 @@ void VfRun::oracle_seek(Handle &H, const Rec &op, const std::string &kind, long 
     check(t1 <= hi, {"C08"}, site, "landed-after-target", fmt("tell=%lld target=%lld", (long long)t1, (long long)hi), facts);
     int64_t bound = 0; for (auto b : sr.boundaries) if (b < lo_t) bound = b; else break;
     // fact for triage: does the page that defines the bound hold nothing but the tail of a packet begun on an earlier page?
-    { const PageInfo *best = nullptr; int64_t bg = -1;
-      for (auto &pg : sr.ps.pages) if (pg.link >= 0 && !pg.header && pg.granule >= 0) { int64_t g = sr.start[pg.link] + std::max<int64_t>(0, std::min<int64_t>(pg.granule - sr.goff[pg.link], sr.ps.links[pg.link]->len)); if (g < lo_t && g >= bg) { bg = g; best = &pg; } }
-      facts["best_page_only_continuation"] = (best && best->cont && best->completed == 1) ? "1" : "0"; }
+    { // K1 fact: is the page the library bisects to (the last one whose granule position is below its target; for time seeks the target is
+      // only known to within a sample) one that completes nothing but the tail of a packet begun on an earlier page?
+      bool k1 = false;
+      for (int64_t th : {lo_t, tp, hi, hi + 1}) { const PageInfo *best = nullptr; int64_t bg = -1;
+        for (auto &pg : sr.ps.pages) if (pg.link >= 0 && !pg.header && pg.granule >= 0) { int64_t g = sr.start[pg.link] + std::max<int64_t>(0, std::min<int64_t>(pg.granule - sr.goff[pg.link], sr.ps.links[pg.link]->len)); if (g < th && g >= bg) { bg = g; best = &pg; } }
+        if (best && best->cont && best->completed == 1) k1 = true; }
+      facts["best_page_only_continuation"] = k1 ? "1" : "0"; }
     check(t1 >= bound, {"C08"}, site, "landed-before-previous-page-boundary", fmt("tell=%lld bound=%lld target=%lld", (long long)t1, (long long)bound, (long long)tp), facts);
   }
   if (kind == "pcm_seek" && tp == sr.total) g_stats.inc("probe.seek_to_total");
